@@ -83,7 +83,7 @@ def cases(tier, seed, shard, nshards):
         tps = 10
         ticks = 2500
         arrivals = {}
-        for j in range(500):
+        for j in range(1100):
             arrivals.setdefault(str(rng.randrange(0, 2300)), []).append(
                 gen.simple_pipeline(rng, f"L{j}", tps, nops=rng.choice([1, 2, 3]), mode="safe", cpus_hint=1, mem_ref=0.3, maxn=3))
         yield {"kind": "rest", "policy": rng.choice(["random", "pack"]), "policy_seed": rng.getrandbits(32),
